@@ -36,4 +36,13 @@ mod verif_c02_real {
         assert!(clean_squitter("").is_none(), "an empty line is not a frame");
         kani::cover!(true, "reach_end");
     }
+
+    //@ob id=C02.clean_squitter.decorated.c props=C02 tier=quick kind=harness fns=utils/format.rs:clean_squitter bounded=1-concrete-line-with-every-non-hex-ASCII-character
+    //@region the same for one line that surrounds the 28 digits with EVERY non-hex ASCII character (all control characters 0x01-0x1F incl. XON/XOFF/TAB/ESC, all punctuation, the letters g-z and G-Z, DEL) and a non-ASCII letter: none of them is counted as a digit
+    #[kani::proof]
+    #[kani::unwind(140)]
+    fn c02_clean_squitter_decorated_c() {
+        expect_frame("\x01\x02\x03\x04\x05\x06\x07\x08\t\x0b\x0c\x0e\x0f\x10\x11\x12\x13\x14\x15\x16\x17\x18\x19\x1a\x1b\x1c\x1d\x1e\x1f ghijklmnopqrstuvwxyz8D40621D58C382D690C8AC2863A7GHIJKLMNOPQRSTUVWXYZ!\"#$%&'()*+,-./:;<=>?@[\\]^_`{|}~\x7f\u{e9}");
+        kani::cover!(true, "reach_end");
+    }
 }
